@@ -159,4 +159,50 @@ theorem too_large_refused (o : Opts) (g : Guards o) (fuel : Nat) (hfuel : o.cap 
   simp only at hm e1
   rw [e1, hm]
 
+/-! non-vacuity of the `retries` guard: `maximum_retries = 0` is inside the quantifier of `Guards` (the retry loop
+    then makes exactly one attempt, `max_retries.saturating_sub(1)`), such an arena can be constructed, and the
+    theorems above apply to it — the refused request below goes through the retry loop with `last = 0 - 1 = 0` -/
+
+def exO0 : Opts :=
+  { sync := true, kind := .opt, unify := true, file := false, reserved := 0, cap := 64, minSeg := 20, retries := 0,
+    magic := 7 }
+
+theorem exO0_guards : Guards exO0 := ⟨by decide, by decide, by decide⟩
+
+example : exO0.cfg.retries = 0 ∧ exO0.cfg.sync = true ∧ exO0.cfg.kind = .opt := ⟨rfl, rfl, rfl⟩
+
+theorem exO0_init : ∃ s, exO0.init = some s := by
+  cases h : exO0.init with
+  | some s => exact ⟨s, rfl⟩
+  | none =>
+    have : exO0.init.isSome = true := by decide +kernel
+    rw [h] at this; cases this
+
+/-- the start state of the arena with `maximum_retries = 0` is reachable, … -/
+theorem exO0_reachable (s : St) (hs : exO0.init = some s) : Reachable exO0 66 (CSess.start s) :=
+  ⟨s, [], hs, fun _ h => (by cases h), fun _ h => (by cases h), rfl⟩
+
+/-- … `alloc_bytes_total` applies to it for every request size, … -/
+example (s : St) (hs : exO0.init = some s) (n : Nat) (hn : n < TWO32) :
+    (∃ m st', allocBytes exO0.cfg s n 66 = .ok (.ok (some m), st')) ∨
+    allocBytes exO0.cfg s n 66 = .ok (.ok none, s) ∨
+    allocBytes exO0.cfg s n 66 = .ok (.error .insufficient, s) :=
+  alloc_bytes_total exO0 exO0_guards 66 (by decide) (CSess.start s) (exO0_reachable s hs) n hn
+
+/-- … and a request larger than the capacity is refused after one pass through the slow path -/
+example (s : St) (hs : exO0.init = some s) : allocBytes exO0.cfg s 100 66 = .ok (.error .insufficient, s) :=
+  too_large_refused exO0 exO0_guards 66 (by decide) (CSess.start s) (exO0_reachable s hs) 100 (by decide)
+    (by have := (start_rel exO0 exO0_guards s hs).2
+        show s.cap ≤ 100
+        rw [this]; decide)
+
+/-- the same by evaluation: a first allocation of 16 bytes succeeds at the data offset 32, the request of 100
+    bytes is answered `InsufficientSpace` (no trap, no `diverge`) -/
+example : (match exO0.init.map fun s => allocBytes exO0.cfg s 16 66 with
+    | some (.ok (.ok (some m), _)) => decide (m = Meta.new 32 16)
+    | _ => false) = true := by decide +kernel
+example : (match exO0.init.map fun s => allocBytes exO0.cfg s 100 66 with
+    | some (.ok (.error .insufficient, _)) => true
+    | _ => false) = true := by decide +kernel
+
 end Rarena.C04
